@@ -303,7 +303,9 @@ func (p *Parser) WrapUntilTag(names ...string) (*NodeWrapper, *Parser, *Error) {
 		p.lastToken)
 }
 
-// Skips all nodes between starting tag and "{% endtag %}"
+// Skips all nodes between starting tag and "{% endtag %}". The end tag takes no
+// arguments: anything between its name and its "%}" is an error (it would be neither
+// parsed nor checked by anyone).
 func (p *Parser) SkipUntilTag(names ...string) *Error {
 	for p.Remaining() > 0 {
 		// New tag, check whether we have to stop wrapping here
@@ -326,19 +328,15 @@ func (p *Parser) SkipUntilTag(names ...string) *Error {
 					// Okay, endtag found.
 					p.ConsumeN(2) // '{%' tagname
 
-					for {
-						if p.Match(TokenSymbol, "%}") != nil {
-							// Done skipping, exit.
-							return nil
-						}
-						// If we haven't encountered '%}', we consume whatever
-						// there might be.
-						p.Consume()
-						if p.Current() == nil {
-							// EOF encountered
-							return p.Error("Unexpected EOF, expected '%}'", p.lastToken)
-						}
+					if p.Match(TokenSymbol, "%}") != nil {
+						// Done skipping, exit.
+						return nil
 					}
+					if p.Current() == nil {
+						// EOF encountered
+						return p.Error("Unexpected EOF, expected '%}'", p.lastToken)
+					}
+					return p.Error("Arguments not allowed here.", p.Current())
 				}
 			}
 		}
